@@ -16,6 +16,16 @@ CHECKS = {
    text="Complete enumeration: all 256 palette indices against the xterm formula, every colour keyword in both directions against an embedded W3C table, all 2^24 RGB values through every conversion round trip, and FindColor for all 2^24 colours (thorough; quick: 2^18 lattice + palette neighbourhoods) against the 8/16/88/256-entry palettes plus 32 seeded palettes (empty, duplicates), compared with an independent CIELAB/CIE76 minimiser. Input domains are finite and fully covered in the thorough tier, so this is a decision, not a sample.",
    note="near-ties within 0.02 deltaE accepted (reference uses Lindbloom's sRGB matrix); the 16 ANSI colours are the published chart values; random palettes are seeded by VERIF_SEED.",
    design="2/C16"),
+ "C03": dict(level="exploration",
+   technique="exhaustive enumeration of the live terminal database x key capabilities x modifier parameters x concatenations through the real parser",
+   text="Complete (not sampled) over the database: for each of the registered entries (names and aliases enumerated from the live map through a verif accessor) every populated Key* capability found by reflection, every xterm modifier parameter 2..16 on every cursor/editing/function key, all C0 bytes and DEL, ESC-prefixed forms, lone ESC with timeout, all ordered pairs (thorough: triples over a 40-sequence subset) of sequences concatenated, and all pairs of built table keys for the proper-prefix relation; each decode repeated 8 times to expose map-iteration dependence. Decoding goes through the real collectEventsFromInput via a synchronous verif entry.",
+   note="Key assignment is read from the entry's field names; when a sequence has two readings the statement supports (description capability and xterm modifier encoding) either is accepted; the synchronous entry bypasses timers, the timeout is the explicit expire call.",
+   design="2/C03"),
+ "C12": dict(level="exploration",
+   technique="exhaustive enumeration of mouse reports (all button codes x finals x coordinate classes x introducers x parser states) plus BFS over report histories, against an independent xterm-protocol decoder",
+   text="SGR: all 256 button codes x M/m x 10x10 coordinate classes (negative, zero, inside, edge, beyond, multi-digit) x 7-bit/8-bit introducer x both button-state flags on two screen sizes; X11: all 2^24 (Cb,Cx,Cy) byte triples in the thorough tier (256x16x16 quick); histories: every sequence up to depth 4 (6 thorough) of press/release/drag/motion/wheel reports per encoding. Expected values come from a decoder written from xterm's ctlseqs, with tcell's button numbering.",
+   note="Button masks the statement does not fix (wheel left/right, buttons 8-11, malformed X11 button bytes) are not compared; X11 drag reports appear in histories only while a press is outstanding.",
+   design="2/C12"),
  # --- new checks above this line ---
 }
 
